@@ -78,9 +78,37 @@ ROWS = {
     "C19-2": ("C19", "config.rs workers field moved behind the tables", "workers = Some(n): toml refuses to serialise a value after tables", "C19 quick: serialise_error", ""),
     "C20-1": ("C20", "source.rs Context::fill_interleaved chunked MD5 drops the remainder (single-thread path only)", "a build without `par` (or multithread = false) and a block whose value count is not a multiple of 64", "C20 quick: feature_dependent; C03 quick: md5", ""),
     "C20-2": ("C20", "same mechanism as C04-2 (authored independently)", "as C04-2", "C20 quick: feature_dependent; C04 quick", ""),
+    # ---- round 2 (sub-agents were told which ideas had been used already)
+    "C01b-1": ("C01", "lpc.rs compute_error: the 32/64-bit accumulation switch forgets the sign bit", "inputs wider than 16 bits, same-sign coefficients, level near 2^16: accumulator in [2^31, 2^32)",
+               "C01 quick: encode_fail|panic@src/lpc.rs (overflow checks are on in the engines; a release build decodes 2^17 off); in MT mode the dead worker makes the call hang or panic (class hang / Failed to wait thread termination)", "exposed the missing replay watchdog (section 8)"),
+    "C01b-2": ("C01", "constant.rs qlpc::MAX_SHIFT 15 -> 31 (signed 5-bit field treated as unsigned)", "an LPC subframe whose coefficients are all <= 0.25 (noise on a DC offset)",
+               "C01 quick: claxon_reject / strict_reject|sub.shift_negative; C02 quick: malformed|sub.shift_negative", ""),
+    "C03b-2": ("C03", "par.rs early return for an empty source with a length hint: MD5 never set", "multi-thread mode and an empty MemSource",
+               "C03 quick: md5_empty_input / delivery_or_mode_dependence", "re-based with a 3-way apply"),
+    "C05b-1": ("C05", "bitrepr.rs utf8like_bytesize over-counts by one byte for 11-, 16-, 21-bit numbers", "more than 1024 frames with the extreme frame numbered 1024..2047 (single-thread sizes come from count_bits, multi-thread ones from the precomputed bytes)",
+               "C04 quick (1300-frame streams, added after reading the change): max_frame_size; C08 quick (header grid at every power of two, added): count_mismatch; C05 quick breadth (1300 / 2100-frame streams, added after the first miss): mt_vs_st|streaminfo", ""),
+    "C05b-2": ("C05", "lpc.rs auto-correlation accumulators never cleared (two cooperating sites)", "any second LPC analysis on a thread",
+               "C10 quick: history_dependent; C05 quick breadth: frame_level_vs_st / mt_vs_st (conclusive)", "invisible to loom (shared thread-local scratch)"),
+    "C06b-1": ("C06", "par.rs: the read error is returned before the frame results are inspected", "an out-of-width block followed by a read error in one source",
+               "C06 quick: result_kind_differs (scenario ..badsample@0+readerr@1)", ""),
+    "C06b-2": ("C06", "par.rs ParContext::fill_le_bytes accepts containers wider than the declared width", "multi-thread mode and a byte source using more bytes per sample than declared",
+               "C17 quick: encode_with_fixed_block_size(bytes-per-sample mismatch)|invalid_argument_accepted", "not a failure kind C06 names; it is C17's class and is reported there"),
+    "C08b-1": ("C08", "bitrepr.rs Residual::write emits the 5-bit-parameter method for parameters above 14 while count_bits charges 4 bits", "parser-produced residuals (RICE2) only",
+               "C08 quick (hand-written RICE2 residuals through parser::residual, added after reading the change): count_mismatch|parsed:residual_handwritten", ""),
+    "C08b-2": ("C08", "datatype.rs SampleRateSpec::count_extra_bits: the tens-of-Hz variant falls into the wildcard arm", "rates that are a multiple of 10 Hz without a dedicated code (e.g. 65540)",
+               "C08 quick: count_mismatch|ctor:frame_header and stream components", ""),
+    "C09b-1": ("C09", "coding.rs verbatim baseline counted in whole bytes per sample", "12- or 20-bit incompressible blocks", "C09 quick: frame_larger_than_verbatim", ""),
+    "C09b-2": ("C09", "bitrepr.rs Residual::count_bits charges the warm-up to the average Rice parameter", "a near break-even predicted subframe whose first partition is quiet",
+               "C08 quick: count_mismatch|ctor:residual; C09 quick (amplitude sweep group GA and atom quiet_then_loud, added after the first miss): frame_larger_than_verbatim", ""),
+    "C10b-1": ("C10", "same mechanism as C05b-2 (authored independently)", "as C05b-2", "C10 quick: history_dependent; C05 quick breadth", ""),
+    "C10b-2": ("C10", "lpc.rs fill_windowed_signal drops the chunks_exact(16) remainder", "a block length that is not a multiple of 16 after a longer analysis on the same thread",
+               "C10 quick: history_dependent|mono16_one_frame_of_255|after|...", ""),
+    "C13b-1": ("C13", "rice.rs sign folding in the cost tables gives 2|x|+1 for negative residuals", "very small, negative-skewed residuals", "C13 quick: not_optimal", ""),
+    "C13b-2": ("C13", "rice.rs padding buffer hoisted out of the chunk loop (stale tail chunk)", "a partition whose sample count is not a multiple of 16 and large residuals at the stale offsets", "C13 quick: not_optimal", ""),
 }
 
 DROPPED = {
+    "C03b-1": "par.rs ParContext kept a stale tail in its byte buffer; with fix 80e23ac (total samples = consumed count) the change makes 60 tests of the pinned suite fail, so it no longer qualifies: not kept",
     "C15-2": "parser.rs residual assumed the warm-up fits in the first partition; only reachable through constructors that fix 59451e6 now rejects, so on the current tree the property holds with the change (its demonstration fails on the current HEAD without the change): not kept",
 }
 
